@@ -1,15 +1,33 @@
 """C09: every written file is well-formed for an independent decoder (Spec/FormatDecode.v).
 
 Implementation side, per case: (1) the harness writes a real file with the real writer and prints its
-bytes; (2) optional corruption of one field (sanity stream); (3) pass A: the extracted decoder lists the
-(offset,size) byte ranges of all blocks from the indices; (4) Python zlib, which knows nothing about the
-format, inflates exactly those ranges and checks each is one complete standard zlib stream; (5) pass B:
-the extracted decoder decodes the file with that table.  The resulting line is compared with the model
-line (decoder on the writer MODEL's bytes) and judged by the oracle (naive recomputation from the case)."""
-import re, struct, zlib
+bytes; (2) optional corruption of one field (sanity stream); (3) pass Z (driver entry 7), all inside the
+extracted Coq code: the decoder lists the (offset,size) byte ranges of all blocks from the indices, inflates
+every range with Spec/Inflate.zlib_decode (RFC 1950/1951 in Gallina; a range must be ONE complete zlib
+stream) and decodes the file with exactly those blocks; (4) cross-check: Python zlib, which knows nothing
+about the format, inflates the same ranges and must agree with the Coq inflater on every block, verdict
+and bytes (a disagreement is reported as a broken correspondence).  In the quick tier blocks of more than
+QUICK_CAP compressed bytes are inflated by Python only (counted in the evidence); the thorough tier has no
+cap.  The resulting line is compared with the model line (decoder on the writer MODEL's bytes) and judged
+by the oracle (naive recomputation from the case).  extra_checks runs the Coq inflater on the test vectors
+of corpus/C09/zlib-vectors.txt and on a seeded random stream of vectors (props/C09_zlibvec.py)."""
+import os, re, struct, time, zlib
 from ..runner import Prop
 from .. import bbigen, core
 from ..core import sx, parse_sx
+
+from . import C09_zlibvec as zvec
+
+QUICK_CAP = 40000          # compressed bytes; larger blocks are inflated by Python only in the quick tier
+
+def py_inflate(blk):
+    """(ok, bytes): ok iff blk is exactly one complete standard zlib stream"""
+    try:
+        d = zlib.decompressobj()
+        outb = d.decompress(blk)
+        return (True, outb) if (d.eof and not d.unused_data) else (False, b"")
+    except zlib.error:
+        return (False, b"")
 
 try:
     from .. import bedgen
@@ -102,10 +120,11 @@ class C09(Prop):
             "single/two pass; 'nice' cases use small dyadic values so that summary and zoom statistics are compared exactly; "
             "a corruption stream changes one header / tree / index / block field of a real file (decoder must answer None); "
             "non-trivial = accepted input with at least 2 records; distinct = distinct case text")
-    CORRESPONDENCE = ("Spec/FormatDecode.decode on the real file (blocks inflated by Python zlib on the ranges pass A asks for) = "
-                      "decode on the bytes of the writer model (Model/BigWigWriteZ.v, Model/BigBedWrite.v); uncompressed: real bytes = model bytes")
-    TRUSTED = ["Python zlib (inflates the byte ranges the decoder asks for, checks each is one complete zlib stream)",
-               "tools/vlib/props/C09.py glue (pass A -> zlib -> pass B; corruption of single fields)"]
+    CORRESPONDENCE = ("Spec/FormatDecode.decode on the real file, every block inflated by Spec/Inflate.zlib_decode inside the extracted code, = "
+                      "decode on the bytes of the writer model (Model/BigWigWriteZ.v, Model/BigBedWrite.v); uncompressed: real bytes = model bytes; "
+                      "Spec/Inflate.zlib_decode = Python zlib on every block of every file and on the zlib test vectors (verdict and bytes)")
+    TRUSTED = ["Python zlib only as a cross-check of Spec/Inflate.v (must agree on every block and test vector); in the quick tier it alone inflates blocks over the size cap",
+               "tools/vlib/props/C09.py glue (pass Z, comparison with zlib; corruption of single fields)"]
     ASSUMPTIONS = ["f32 -0.0 / NaN are not generated (the sign of zero is not modelled)",
                    "statistics are compared only on values for which the implementation's f64 arithmetic is exact"]
     PER_CASE_TIMEOUT = 30.0
@@ -116,9 +135,27 @@ class C09(Prop):
         self.zlib_blocks = 0
         self.zlib_bad = 0          # in uncorrupted files
         self.zlib_bad_corrupted = 0
+        self.tier = "quick"
+        self.z = {"coq_blocks": 0, "coq_ok": 0, "coq_refused": 0, "coq_out_bytes": 0, "coq_in_bytes": 0, "over_cap": 0,
+                  "agree": 0, "disagree": 0, "largest_block": 0, "pass_z_seconds": 0.0}
+        self.z_disagreements = []
+
+    def corpus(self):
+        # corpus/C09/zlib-vectors.txt holds zlib streams for extra_checks, not cases
+        d = os.path.join(core.VERIF, "corpus", self.ID)
+        res = []
+        if os.path.isdir(d):
+            for f in sorted(os.listdir(d)):
+                if f.startswith("zlib-"): continue
+                for line in open(os.path.join(d, f)):
+                    line = line.strip()
+                    if line and not line.startswith("#"):
+                        res.append((line, ["corpus"]))
+        return res
 
     # ------------------------------------------------------------------ generation
     def gen(self, rng, tier):
+        self.tier = tier
         nbw, nbed, ncorr = (260, 160, 200) if tier == "quick" else (5000, 3000, 3000)
         base = []
         for i in range(nbw):
@@ -184,48 +221,76 @@ class C09(Prop):
             else:
                 final[i] = out
         idx = [i for i in range(n) if files[i] is not None]
-        a_in = ["(" + bytes_sx(files[i]) + ")" for i in idx]
-        a_out = core.run_model(self.ID, 2, a_in) if idx else []
-        b_idx = []; b_in = []; zoks = {}
-        for i, ao in zip(idx, a_out):
-            ao = ao.strip()
-            zoks[i] = 1
-            if not ao.startswith("(0 "):
-                final[i] = self.line(lines[i], files[i], 1, "(1)" if ao == "(1)" else ao, 0)
+        cap = QUICK_CAP if self.tier == "quick" else 0
+        t0 = time.time()
+        def zin(i, extra):
+            return "(%s %d (%s) %d)" % (bytes_sx(files[i]), cap, " ".join(extra), 0 if _CORR.search(lines[i]) else 1)
+        z_out = core.run_model(self.ID, 7, [zin(i, []) for i in idx]) if idx else []
+        parsed = {}
+        redo = {}
+        for i, zo in zip(idx, z_out):
+            zo = zo.strip()
+            if not zo.startswith("(0 "):
+                final[i] = self.line(lines[i], files[i], 1, "(1)" if zo == "(1)" else zo, 0)
                 continue
-            p = parse_sx(ao)
-            ubuf, ranges = p[1], p[2]
-            table = []
-            if ubuf > 0:
-                for off, size in ranges:
-                    self.zlib_blocks += 1
-                    blk = files[i][off:off + size]
-                    try:
-                        d = zlib.decompressobj()
-                        outb = d.decompress(blk)
-                        ok = d.eof and not d.unused_data and len(blk) == size
-                    except zlib.error:
-                        ok = False
-                    if ok:
-                        table.append("(%d %d %s)" % (off, size, bytes_sx(outb)))
+            p = parse_sx(zo)
+            over = [b for b in p[2] if b[2] == 2]
+            if over:     # blocks over the cap: Python's bytes are handed to the decoder for these
+                ex = []
+                for b in over:
+                    ok, outb = py_inflate(files[i][b[0]:b[0] + b[1]])
+                    if ok: ex.append("(%d %d %s)" % (b[0], b[1], bytes_sx(outb)))
+                redo[i] = ex
+            parsed[i] = p
+        if redo:
+            ridx = sorted(redo)
+            for i, zo in zip(ridx, core.run_model(self.ID, 7, [zin(i, redo[i]) for i in ridx])):
+                parsed[i] = parse_sx(zo.strip())
+        self.z["pass_z_seconds"] += time.time() - t0
+        pend = []
+        for i in idx:
+            if i not in parsed: continue
+            p = parsed[i]
+            corrupted = bool(_CORR.search(lines[i]))
+            zok = 1
+            for b in p[2]:
+                off, size, status = b[0], b[1], b[2]
+                blk = files[i][off:off + size]
+                ok, outb = py_inflate(blk) if len(blk) == size else (False, b"")
+                self.zlib_blocks += 1
+                self.z["largest_block"] = max(self.z["largest_block"], size)
+                if status == 2:
+                    self.z["over_cap"] += 1
+                    good = ok
+                else:
+                    self.z["coq_blocks"] += 1; self.z["coq_in_bytes"] += size
+                    good = status == 0
+                    if good:
+                        self.z["coq_ok"] += 1; self.z["coq_out_bytes"] += len(b[3])
                     else:
-                        zoks[i] = 0
-                        if _CORR.search(lines[i]): self.zlib_bad_corrupted += 1
-                        else: self.zlib_bad += 1
-            b_idx.append(i)
-            b_in.append("(" + bytes_sx(files[i]) + " (" + " ".join(table) + "))")
-        b_out = core.run_model(self.ID, 3, b_in) if b_idx else []
+                        self.z["coq_refused"] += 1
+                    same = (ok and bytes(b[3]) == outb) if status == 0 else (status == 1 and not ok)
+                    if same:
+                        self.z["agree"] += 1
+                    else:
+                        self.z["disagree"] += 1
+                        self.z_disagreements.append({"case": lines[i][:3000], "offset": off, "size": size, "coq": b[2:4] if status else [0, len(b[3])],
+                                                     "python_ok": ok, "python_len": len(outb), "block_hex": blk.hex()[:20000]})
+                if not good:
+                    zok = 0
+                    if corrupted: self.zlib_bad_corrupted += 1
+                    else: self.zlib_bad += 1
+            decoded = sx(p[3])
+            pend.append((i, zok, decoded, sx(p[4][0]) if (decoded == "(1)" and not corrupted and p[4]) else None))
         # strict decoding failed on an uncorrupted file: is the order of the chromosome keys the only defect?
-        len_pos = [k for k, (i, bo) in enumerate(zip(b_idx, b_out)) if bo.strip() == "(1)" and not _CORR.search(lines[i])]
+        len_pos = [k for k, e in enumerate(pend) if e[3] is not None]
         lenient = {}
         if len_pos:
-            l_out = core.run_model(self.ID, 4, [b_in[k] for k in len_pos])
-            o_in = ["(%s (0 () %d %s))" % (lines[b_idx[k]], zoks[b_idx[k]], lo.strip()) for k, lo in zip(len_pos, l_out)]
-            v_out = core.run_model(self.ID, 1, o_in)
-            for k, v in zip(len_pos, v_out):
-                lenient[b_idx[k]] = 1 if v.strip() == "1" else 0
-        for i, bo in zip(b_idx, b_out):
-            final[i] = self.line(lines[i], files[i], zoks[i], bo.strip(), lenient.get(i))
+            o_in = ["(%s (0 () %d %s))" % (lines[pend[k][0]], pend[k][1], pend[k][3]) for k in len_pos]
+            for k, v in zip(len_pos, core.run_model(self.ID, 1, o_in)):
+                lenient[pend[k][0]] = 1 if v.strip() == "1" else 0
+        for i, zok, decoded, _ in pend:
+            final[i] = self.line(lines[i], files[i], zok, decoded, lenient.get(i))
         for i, line in enumerate(lines):
             m = _CORR.search(line)
             if m and files[i] is not None:
@@ -293,8 +358,106 @@ class C09(Prop):
         res.append(("stat", "corruptions by kind: applied, detected, field absent",
                     {CORRUPT_KINDS[k]: v for k, v in sorted(self.corr_stats.items())}))
         res.append(("stat", "undetected corruptions (first 10)", self.undetected[:10]))
-        res.append(("stat", "zlib blocks inflated by Python / not one complete standard zlib stream: in uncorrupted files, in corrupted files",
+        res.append(("stat", "block ranges judged / not one complete standard zlib stream: in uncorrupted files, in corrupted files",
                     "%d / %d, %d" % (self.zlib_blocks, self.zlib_bad, self.zlib_bad_corrupted)))
+        z = dict(self.z); z["pass_z_seconds"] = round(z["pass_z_seconds"], 1)
+        z["cap_compressed_bytes"] = QUICK_CAP if self.tier == "quick" else "none"
+        res.append(("stat", "blocks of real files inflated by the Coq decoder (Spec/Inflate.zlib_decode) and compared with Python zlib, verdict and bytes", z))
+        for d in self.z_disagreements[:3]:
+            res.append(("nofail", "Spec/Inflate.zlib_decode and Python zlib disagree on a block of a written file",
+                        dict(d, property="C09", kind="correspondence-broken",
+                             theorem_or_correspondence="Spec/Inflate.zlib_decode = Python zlib on every block range of a written file")))
+        res += self.vector_checks(ctx)
+        res += self.inflate_theorems()
+        return res
+
+    # theorems about Spec/Inflate.v (Proofs/InflateThms.v, pins in Proofs/InflatePins.v): built and audited here
+    INFLATE_THEOREMS = ["inflate_never_fuel", "zlib_decode_res_total", "inflate_step_consumes", "adler32_closed_form", "adler32_fits_u32",
+                        "adler32_streaming", "lz_copy_correct", "length_codes_in_range", "distance_codes_in_range", "zlib_decode_stored",
+                        "zlib_store_one_block", "C09_decode_encode_zlib_stored", "C09_decode_encode_zlib_stored_multipass"]
+    def inflate_theorems(self):
+        from ..core import sh
+        t0 = time.time()
+        why = None
+        ok, out = core.coq_make(["theories/Proofs/InflateThms.vo", "theories/Proofs/InflatePins.vo"])
+        closed = 0
+        if not ok:
+            why = "Proofs/InflateThms.v or Proofs/InflatePins.v does not build: " + out[-1500:]
+        else:
+            tmp = os.path.join(core.CACHE, "audit"); os.makedirs(tmp, exist_ok=True)
+            f = os.path.join(tmp, "Audit_C09_inflate.v")
+            with open(f, "w") as fh:
+                fh.write("From BT Require Import Proofs.InflateThms.\n")
+                for t in self.INFLATE_THEOREMS:
+                    fh.write('Goal True. idtac "@@THM %s". exact I. Qed.\nPrint Assumptions %s.\n' % (t, t))
+            rc, out = sh(["timeout", "600", "coqc", "-Q", os.path.join(core.COQ, "theories"), "BT", f], cwd=tmp)
+            if rc != 0:
+                why = "audit of Proofs/InflateThms.v did not compile: " + out[-1500:]
+            else:
+                parts = out.split("@@THM ")[1:]
+                closed = sum(1 for q in parts if "Closed under the global context" in q)
+                notclosed = [q.split("\n")[0].strip() for q in parts if "Closed under the global context" not in q]
+                if len(parts) != len(self.INFLATE_THEOREMS) or notclosed:
+                    why = "not closed under the global context: %s" % notclosed
+        res = [("stat", "theorems about Spec/Inflate.v built, pinned and closed under the global context; seconds",
+                "%d of %d; %.1f" % (closed, len(self.INFLATE_THEOREMS), time.time() - t0))]
+        if why:
+            res.append(("nofail", "theorems about Spec/Inflate.v", {"property": "C09", "kind": "proof-or-build-broken",
+                                                                     "theorem_or_correspondence": "Proofs/InflateThms.v", "problems": why}))
+        return res
+
+    def vector_checks(self, ctx):
+        """the Coq inflater against Python zlib on the fixed test vectors, on a seeded random stream of vectors, and
+        Python zlib on the output of the stored-block encoder of the round-trip theorem"""
+        import random
+        res = []
+        t0 = time.time()
+        path = os.path.join(core.VERIF, "corpus", self.ID, "zlib-vectors.txt")
+        fixed = zvec.load_corpus(path)
+        rng = random.Random(1000003 * int(ctx.get("seed", 0)) + 17)
+        rnd = zvec.random_vectors(rng, 400 if ctx.get("tier") == "quick" else 6000)
+        allv = [(k, s) for k, _, _, _, s in fixed] + rnd
+        outs = core.run_model(self.ID, 8, [bytes_sx(s) for _, s in allv])
+        stale = []; bad = []; accepted = 0; classes = {}
+        for k, (kind, ok0, n0, a0, s) in enumerate(fixed):
+            ok, outb = py_inflate(s)
+            if int(ok) != ok0 or len(outb) != n0 or (zlib.adler32(outb) if ok else 1) != a0:
+                stale.append(kind)
+        for (kind, s), o in zip(allv, outs):
+            o = o.strip()
+            ok, outb = py_inflate(s)
+            accepted += ok
+            if ok: good = (o == "(0 %s)" % bytes_sx(outb))
+            else:
+                good = o.startswith("(1 ")
+                if good: classes[o] = classes.get(o, 0) + 1
+            if not good:
+                bad.append({"vector": kind, "stream_hex": s.hex()[:20000], "python_ok": ok, "python_len": len(outb), "coq": o[:200]})
+        # the encoder of zlib_decode_stored: what it writes must be a stream Python zlib inflates to the input
+        datas = [b"", b"a", bytes(range(256)), bytes(rng.randrange(256) for _ in range(65535)),
+                 bytes(rng.randrange(256) for _ in range(65536)), bytes(rng.randrange(7) for _ in range(140000))]
+        datas += [bytes(rng.randrange(256) for _ in range(rng.randrange(0, 300))) for _ in range(40)]
+        enc_bad = 0; enc_same_as_level0 = 0
+        for d, o in zip(datas, core.run_model(self.ID, 9, [bytes_sx(d) for d in datas])):
+            st = bytes(parse_sx(o.strip()))
+            ok, outb = py_inflate(st)
+            if not (ok and outb == d): enc_bad += 1
+            if st == zlib.compress(d, 0): enc_same_as_level0 += 1
+        res.append(("stat", "zlib test vectors: fixed corpus + seeded random stream; accepted by Python zlib; Coq/Python disagreements; seconds",
+                    "%d + %d; %d; %d; %.1f" % (len(fixed), len(rnd), accepted, len(bad), time.time() - t0)))
+        res.append(("stat", "zlib test vectors refused, by error class of Spec/Inflate.v", dict(sorted(classes.items()))))
+        res.append(("stat", "zlib_store outputs inflated by Python zlib: streams / wrong / byte-identical to zlib level 0",
+                    "%d / %d / %d" % (len(datas), enc_bad, enc_same_as_level0)))
+        if stale:
+            res.append(("nofail", "Python zlib no longer gives the verdicts recorded in corpus/C09/zlib-vectors.txt",
+                        {"property": "C09", "kind": "proof-or-build-broken", "vectors": stale[:20]}))
+        for b in bad[:3]:
+            res.append(("nofail", "Spec/Inflate.zlib_decode and Python zlib disagree on a test vector",
+                        dict(b, property="C09", kind="correspondence-broken",
+                             theorem_or_correspondence="Spec/Inflate.zlib_decode = Python zlib (verdict and bytes) on the zlib test vectors")))
+        if enc_bad:
+            res.append(("nofail", "a stream written by Spec/Inflate.zlib_store is not inflated to its input by Python zlib",
+                        {"property": "C09", "kind": "correspondence-broken", "count": enc_bad}))
         return res
 
 PROP = C09()
